@@ -49,7 +49,7 @@ pub struct CallRec {
     pub token_debug: Option<(String, String)>,
 }
 
-const REQ_TRANSPARENT: &[FK] = &[FK::Pretty, FK::SmileReencode, FK::CtParams, FK::TrailingWs, FK::LeadingWs, FK::UnionReorder];
+const REQ_TRANSPARENT: &[FK] = &[FK::Pretty, FK::SmileReencode, FK::CtParams, FK::TrailingWs, FK::LeadingWs, FK::UnionReorder, FK::QuerySpelling];
 const REQ_BODY_DAMAGE: &[FK] = &[
     FK::StreamError,
     FK::Truncate,
@@ -139,18 +139,31 @@ pub struct RunSetup {
 }
 
 pub fn setup(ctx: &Ctx, is_async: bool, knobs: GenKnobs) -> RunSetup {
-    setup_with(ctx, is_async, knobs, false)
+    setup_with(ctx, is_async, knobs, false, false)
 }
 
 /// `macro_server`: the hand-written `#[conjure_endpoints]` mirror traits take
 /// precedence over the generated endpoints for the endpoints they cover.
-pub fn setup_with(ctx: &Ctx, is_async: bool, knobs: GenKnobs, macro_server: bool) -> RunSetup {
+/// `single_encoding`: the runtime may also be built with one encoding only (then requests in the
+/// other one have to be refused; only the C06 oracle knows how to judge that).
+pub fn setup_with(ctx: &Ctx, is_async: bool, knobs: GenKnobs, macro_server: bool, single_encoding: bool) -> RunSetup {
     let handler = Handler::new(ctx);
     // knob: the registered encodings and their order
-    let rt = match ctx.draw(4) {
+    let mut registered = (true, true);
+    let rt = match ctx.draw(if single_encoding { 6 } else { 4 }) {
         0 | 1 => ConjureRuntime::new(),
         2 => ConjureRuntime::builder().encoding(JsonEncoding).encoding(SmileEncoding).build(),
-        _ => ConjureRuntime::builder().encoding(SmileEncoding).encoding(JsonEncoding).build(),
+        3 => ConjureRuntime::builder().encoding(SmileEncoding).encoding(JsonEncoding).build(),
+        4 => {
+            registered = (true, false);
+            ctx.count("probe.runtime_json_only");
+            ConjureRuntime::builder().encoding(JsonEncoding).build()
+        }
+        _ => {
+            registered = (false, true);
+            ctx.count("probe.runtime_smile_only");
+            ConjureRuntime::builder().encoding(SmileEncoding).build()
+        }
     };
     let rt = Arc::new(rt);
     let (sync_eps, async_eps) = if is_async {
@@ -189,6 +202,7 @@ pub fn setup_with(ctx: &Ctx, is_async: bool, knobs: GenKnobs, macro_server: bool
             handler,
             exchanges: Mutex::new(Vec::new()),
             next_body_id: Mutex::new(0),
+            registered,
         }),
         knobs,
         is_async,
@@ -396,7 +410,7 @@ impl WireEngine {
             ctx.sig("macro-server");
             ctx.count("probe.macro_server_run");
         }
-        let st = setup_with(ctx, is_async, knobs, macro_server);
+        let st = setup_with(ctx, is_async, knobs, macro_server, faults_on && self.profile == Profile::C06);
         let run_enabled: Vec<FK> = match self.profile {
             Profile::C04 | Profile::C07 => REQ_TRANSPARENT.to_vec(),
             Profile::C06 => {
@@ -513,6 +527,29 @@ impl WireEngine {
                             ctx.count("probe.c07_uri_aimed_at_length_limit");
                         }
                     }
+                }
+            }
+            if ctx.chance(1, 12) {
+                // a value that looks like more of the query: "...;otherParam=..." - it is one value
+                let meta = &ir().eps[ep];
+                let off = if matches!(meta.auth, Auth::None) { 0 } else { 1 };
+                let strs: Vec<usize> = meta
+                    .args
+                    .iter()
+                    .enumerate()
+                    .filter(|(_, a)| a.kind == PKind::Query && a.ty == Ty::Prim(crate::ir::Prim::String))
+                    .map(|(i, _)| i)
+                    .collect();
+                let ids: Vec<&str> = meta.args.iter().filter(|a| a.kind == PKind::Query).map(|a| a.param_id.as_str()).collect();
+                if !strs.is_empty() {
+                    let i = strs[ctx.draw(strs.len() as u64) as usize];
+                    let a = &meta.args[i];
+                    let mark = if a.declared_safe() { "v".to_string() } else { st.knobs.alpha.clone() };
+                    let sep = ctx.with_tape(|t| *t.pick(&[";", ";", "&", "&amp;", "?", "#", ",", "\n", "%26", "%3B"]));
+                    let other = ids[ctx.draw(ids.len() as u64) as usize];
+                    let name = args[i + off].name;
+                    args[i + off] = ArgVal::new(name, Box::new(format!("{}{}{}={}", mark, sep, other, mark)));
+                    ctx.count("probe.query_value_that_looks_like_another_pair");
                 }
             }
             let ret = ctx.with_tape(|t| crate::mirror::gen_ret(ep, t, &st.knobs));
